@@ -152,6 +152,12 @@ def load_contracts(cdir):
                         fc['bottom'].append((d.body(), props, d.lineno))
                     elif d.name == 'filerewrite':
                         fc['filerewrites'].append(split_rewrite(d) + (d.lineno,))
+                    elif d.name == 'wrapconsts':
+                        fc['wrapconsts'] = True
+                        for line in d.text:
+                            if '==' in line:
+                                k, v = line.split('==', 1)
+                                fc.setdefault('constspecs', {})[k.strip()] = v.strip()
                     elif d.name == 'wrap':
                         kind, path = d.arg.split(None, 1)
                         fc['wraps'].append((kind, path, d.lineno))
@@ -241,6 +247,7 @@ def annotate_file(src, fc, relfile, uid_start=0):
         ins.append((off, order[0], text))
 
     uid = uid_start
+    impl_wraps = {}
     lost_units = set(id(u) for u, _ in lost)
     for u in fc['units']:
         if id(u) in lost_units:
@@ -252,6 +259,11 @@ def annotate_file(src, fc, relfile, uid_start=0):
             uid += 1
             u.uid = 'U%04d' % uid
             my = []
+            if it.parent is not None and it.parent.kind in ('impl', 'trait'):
+                # verus!{} at impl-item level breaks associated functions without a receiver: wrap the whole
+                # impl once and mark the sibling functions that are not under contract #[verifier::external]
+                u.nowrap = True
+                impl_wraps.setdefault(id(it.parent), (it.parent, set()))[1].add(id(it))
 
             def madd(off, text, my=my):
                 my.append((off, text))
@@ -334,6 +346,50 @@ def annotate_file(src, fc, relfile, uid_start=0):
             u.uid = None
     wrapn = 0
     wraprecs = []
+    for parent, members in impl_wraps.values():
+        add(parent.start, 'verus! {\n')
+        add(parent.end, '\n} // verus!\n')
+        n_ext = 0
+        for sib in parent.children:
+            if sib.kind == 'fn' and id(sib) not in members and sib.body_open is not None:
+                add(sib.kw, '#[verifier::external] ')
+                n_ext += 1
+        wraprecs.append({'kind': 'impl', 'path': parent.key(), 'siblings_marked_external': n_ext})
+    if fc.get('wrapconsts'):
+        INT = ('usize', 'u8', 'u16', 'u32', 'u64', 'u128', 'i32', 'i64', 'isize')
+        for it in items:
+            if it.kind != 'const':
+                continue
+            # const NAME : TYPE = init ;
+            ts = [t for t in toks[it.tok_lo:it.tok_hi + 1] if t.k != 'com']
+            names = [i for i, t in enumerate(ts) if t.k == 'id' and t.s == 'const']
+            ci = names[0]
+            if ts[ci + 2].s != ':' or ts[ci + 3].s not in INT:
+                continue
+            name = ts[ci + 1].s
+            spec = fc.get('constspecs', {}).get(name)
+            add(it.start, 'verus! {\n')
+            widened = not any(t.k == 'id' and t.s == 'pub' for t in ts[:ci])
+            if widened:
+                add(ts[ci].a, 'pub ')  # rule R7: visibility widening, no run-time meaning
+            if spec is not None:
+                # exec const with an ensures clause (initialiser calls a const fn)
+                eq = [t for t in ts if t.s == '='][0]
+                semi = toks[it.tok_hi]
+                add(ts[ci].a, 'exec ')
+                proof = ''
+                if ';;' in spec:
+                    spec, proof = [x.strip() for x in spec.split(';;', 1)]
+                    proof = 'proof { %s } ' % proof
+                add(eq.a, '\n    ensures %s == %s\n{ %s' % (name, spec, proof))
+                # drop the '=' by commenting it out: insert comment markers around it
+                add(eq.a, '/*')
+                add(eq.b, '*/')
+                add(semi.a, ' }')
+                add(semi.a, '/*')
+                add(semi.b, '*/')
+            add(it.end, '\n} // verus!\n')
+            wraprecs.append({'kind': 'const', 'path': name, 'spec': spec, 'R7_widened': widened})
     for kind, path, lineno in fc['wraps']:
         try:
             it = find_one(items, kind, path, lineno)
